@@ -13,7 +13,7 @@ import (
 )
 
 func init() {
-	register("C13", "Decides the structural conditions of replica-set identity and clean-up: (R1) every Create(ExtendedDaemonSetReplicaSet) reachable from the ExtendedDaemonSet Reconcile is reached only under `X == nil`, X being a loop variable that, in a loop over every index of the Items of a list object whose List call's error was checked, is tested on every iteration path with IsReplicaSetUpToDate(item, ds), becomes provably non-nil on every path where the test is true and is left unchanged where it is false, the loop having no other exit that reaches the creation, and ds being the very object the new replica set is built from; (R2) hash chain: the constructor of the created replica set copies ds.Spec.Template, writes the template-hash annotation and Spec.TemplateGeneration from one call of the hash function over &ds.Spec.Template (on every success path of the stamping function), and the creation is reached only when that constructor returned no error; IsReplicaSetUpToDate returns true only when the same annotation key of the replica set equals the hash of &ds.Spec.Template; the hash function feeds its hash with exactly encoding/json.Marshal of its argument; pods are stamped from and compared with Spec.TemplateGeneration under the same key (shared with C10.R4); (R3) every Delete(ExtendedDaemonSetReplicaSet) is reached, on every path of its loop iteration, only with current != nil, name != current.Name, (upToDate == nil or name != upToDate.Name) and a true result of a predicate that returns true only for a nil object or when desired+current+ready+available are all zero; at the call site `current` is the result of the promotion decision (the value status.activeReplicaSet is stored from) and `upToDate` is the R1 variable; (R4) the PodTemplate constructor takes name, namespace and a copy of Spec.Template from the ExtendedDaemonSet and stamps the hash of &eds.Spec.Template under the hash key on every success path; the object handed to Create/Update is that constructor's result for the reconciled object; the update is skipped (nil error without Update) only when the stored annotation equals the computed hash of the same object. In R2 and R4 the constructor may be wrapped (a function that returns the inner constructor's object unchanged in identity, Spec/Template and hash annotation, and only when the inner call reported no error or together with that error); the annotation may be written by a map update or by installing a fresh map literal that holds the key; in R4 the hash may be handed to the constructor, provided that at every call it is the hash of the template of the ExtendedDaemonSet handed in with it; in R3 the all-zero predicate may delegate to a boolean repository helper over (a part of) the replica set, which then counts for the counters that are zero on every path on which it returns true.", runC13)
+	register("C13", "Decides the structural conditions of replica-set identity and clean-up: (R1) every Create(ExtendedDaemonSetReplicaSet) reachable from the ExtendedDaemonSet Reconcile is reached only under `X == nil`, X being a loop variable that, in a loop over every index of the Items of a list object whose List call's error was checked, is tested on every iteration path with IsReplicaSetUpToDate(item, ds), becomes provably non-nil on every path where the test is true and is left unchanged where it is false, the loop having no other exit that reaches the creation, and ds being the very object the new replica set is built from; (R2) hash chain: the constructor of the created replica set copies ds.Spec.Template, writes the template-hash annotation and Spec.TemplateGeneration from one call of the hash function over &ds.Spec.Template (on every success path of the stamping function), and the creation is reached only when that constructor returned no error; IsReplicaSetUpToDate returns true only when the same annotation key of the replica set equals the hash of &ds.Spec.Template; the hash function feeds its hash with exactly encoding/json.Marshal of its argument; pods are stamped from and compared with Spec.TemplateGeneration under the same key (shared with C10.R4); (R3) every Delete(ExtendedDaemonSetReplicaSet) is reached, on every path of its loop iteration, only with current != nil, name != current.Name, (upToDate == nil or name != upToDate.Name) and a true result of a predicate that returns true only for a nil object or when desired+current+ready+available are all zero; at the call site `current` is the result of the promotion decision (the value status.activeReplicaSet is stored from) and `upToDate` is the R1 variable; (R4) the PodTemplate constructor takes name, namespace and a copy of Spec.Template from the ExtendedDaemonSet and stamps the hash of &eds.Spec.Template under the hash key on every success path; the object handed to Create/Update is that constructor's result for the reconciled object; the update is skipped (nil error without Update) only when the stored annotation equals the computed hash of the same object. In R2 and R4 the constructor may be wrapped (a function that returns the inner constructor's object unchanged in identity, Spec/Template and hash annotation, and only when the inner call reported no error or together with that error); the annotation may be written by a map update or by installing a fresh map literal that holds the key; in R4 the hash may be handed to the constructor, provided that at every call it is the hash of the template of the ExtendedDaemonSet handed in with it; in R3 the all-zero predicate may delegate to a boolean repository helper over (a part of) the replica set, which then counts for the counters that are zero on every path on which it returns true. R2 also requires that no write which can execute after the hash stamp replaces the new replica set's annotation map or updates it under a key that may be the template-hash key (a copied stale hash would overwrite the fresh one).", runC13)
 }
 
 type c13Ctx struct {
